@@ -22,7 +22,15 @@ Tie on every run:
      grow between N and 2N, at most RANGE_CACHE_SIZE ranges are rooted, and after dropping the Vm and collecting
      the heap is EMPTY (every root count returned to zero: last_drop_zero).
  (d) impl == M, range cache: request sequences over a small pool of bounds; the identities (`==` on ranges is
-     box identity) handed out by the Vm have the pattern RangeCache.v computes (FIFO eviction, no refresh on hit)."""
+     box identity) handed out by the Vm have the pattern RangeCache.v computes (FIFO eviction, no refresh on hit).
+ (e) retention chains (round 4) and hand-outs (round 7): a leftover built through a temporary owner (fiber, frame, try/finally,
+     closed upvalue, import) must not pin the owner; round 7: the owner is ABANDONED suspended / resumed-and-suspended /
+     inside call, try, loop, catch with the previous leftover on its stack while its product lives on.
+ (f) live-set profiles (round 7): programs whose live set grows above the budget and SHRINKS again (8 shapes); whole
+     release log through Pacing.v and pacing_bound.  PacingRule.v: any threshold rule bounded by max(INIT, GROWTH * survivors)
+     keeps the bound; ratchet / damping / averaging are refuted by a grow-then-drop history and equal the source's rule
+     while the survivors do not shrink.
+ (g) the size the allocator charges against size_of::<T>() computed by the harness itself (TI record)."""
 import json
 import os
 import re
@@ -213,8 +221,22 @@ def pacing_term(recs, c):
         ";".join('"%s"%%string' % ch for ch in chunks))
 
 
+def eval_logs(terms, shard_size, tag):
+    """coq_eval of replay terms; a term that came back empty (coqc killed / timed out on a loaded machine) is evaluated once more, alone"""
+    if not terms:
+        return []
+    vals = yvlib.coq_eval(["YV:PacingRun"], terms, shard_size=shard_size, tag=tag, preamble="Open Scope string_scope.")
+    for i, v in enumerate(vals):
+        if v is None:
+            vals[i] = yvlib.coq_eval(["YV:PacingRun"], [terms[i]], shard_size=1, tag=tag + "retry", preamble="Open Scope string_scope.")[0]
+    return vals
+
+
 def alloc_log(rec):
     return [[int(x) for x in a] for a in rec.tagged("A")]
+
+
+UNKNOWN_KIND_BOXES = [0]
 
 
 class Run:
@@ -227,6 +249,10 @@ class Run:
         self.S = [int(x) for x in s[0]] if s else None
         t = rec.tagged("T")
         self.T = int(t[0][0]) if t else None
+        ti = rec.tagged("TI")
+        self.TI = [int(x) for x in ti[0]] if ti else None    # [sum of size_of::<T>() taken by the harness itself, boxes of unknown kind]
+        if self.TI and self.TI[1]:
+            UNKNOWN_KIND_BOXES[0] = max(UNKNOWN_KIND_BOXES[0], self.TI[1])
         self.K = kinds_of(rec, "K")
         self.RK = kinds_of(rec, "RK")
         d = rec.tagged("D")
@@ -234,6 +260,17 @@ class Run:
         self.P = [[int(x) for x in p] for p in rec.tagged("P")]
         b = rec.tagged("B")
         self.B = int(b[0][0]) if b else 0
+
+
+def indep_size_problem(r, where):
+    """the size the allocator charges (hook H2 log) against size_of::<T>() computed by the harness for the same kinds"""
+    cands = [(r.T, r.TI)] if r.TI and r.T is not None else []
+    cands += [(p[4], p[5:7]) for p in r.P if len(p) >= 7]
+    for logged, ti in cands:
+        if ti[1] == 0 and ti[0] != logged:
+            return ("corr", "the size allocate_raw charges for a box is not size_of::<T>() of its payload (%s): Pacing.v's `size` and the "
+                    "property's 'heap size' are no longer the payload bytes" % where, "sum of logged sizes of the live boxes = %d, sum of size_of::<T>() = %d" % (logged, ti[0]))
+    return None
 
 
 def sizes(quick):
@@ -304,6 +341,9 @@ def check_programs(ctx, specs, quick, tag, want_pacing=True):
                 if badp:
                     probs.append(("violation", "bytes_allocated is not the sum of the sizes of the live boxes at a heap_probe() call (%s build, %d iterations)" % (build, n),
                                   "bytes, threshold, nobjects, collections, live sizes = %s" % badp[0]))
+                ip = indep_size_problem(r, "%s build" % build)
+                if ip and not any(q[1] == ip[1] for q in probs):
+                    probs.append(ip)
         if runs["rel2"].S and runs["rel2"].S[3] <= 1:
             info["trivial"] = True   # only the forced collection: the program did not allocate enough
         # debug build: every allocation collects, threshold = GROWTH * survivors
@@ -318,8 +358,7 @@ def check_programs(ctx, specs, quick, tag, want_pacing=True):
             term_ix.append(ix)
             terms.append(pacing_term(rl, c))
     t2 = time.time()
-    vals = yvlib.coq_eval(["YV:PacingRun"], terms, shard_size=max(1, min(3, (len(terms) + yvlib.NPROC - 1) // yvlib.NPROC)),
-                          tag="C16" + tag, preamble="Open Scope string_scope.") if terms else []
+    vals = eval_logs(terms, max(1, min(3, (len(terms) + yvlib.NPROC - 1) // yvlib.NPROC)), "C16" + tag)
     log("[C16] replay of %d logs (%d records) in Coq: %.1fs" % (len(terms), sum(r["records"] for r in results), time.time() - t2))
     for ix, val in zip(term_ix, vals):
         info = results[ix]
@@ -532,6 +571,183 @@ def check_run_logs(ctx, specs, quick):
     return len(terms)
 
 # ---------------------------------------------------------------------------------------------------------
+# live-set profiles (round 7): the fragment loops have a STEADY live set (ring + ballast fixed for the whole run), so the
+# threshold only ever follows 2 x survivors upwards or stays; any pacing rule that differs from `2 x survivors` only
+# when the survivors SHRINK (threshold floors, ratchets, damping, hysteresis, "do not shrink below ...") is invisible
+# to them.  A profile program moves the live set through phases (grow well above the 64 KiB budget, drop, regrow,
+# stairs, spikes) and churns garbage after every move, long enough for the next two collections at the largest
+# threshold the history could have produced.  The whole release log goes through Pacing.v (M) and pacing_bound (S).
+PHASE_ITEMS = {   # expression building one live item / one piece of garbage from the counter j
+    "vec": "[j]", "tuple": "(j, 1)", "map": "{j: 1}", "inst": "A.new()", "derived": "D.new(j)", "closure": "mk(j)",
+    "pair": "[[j], (j, j)]", "bound": "pv.push", "fiber": "Fiber.new(|| j)",
+}
+PHASE_BYTES = {"vec": 48, "tuple": 40, "map": 56, "inst": 48, "derived": 96, "closure": 128, "pair": 136, "bound": 32, "fiber": 256}   # measured, approximate: only sizes the phases
+PHASE_PROFILES = ["updown", "sawtooth", "stairs_down", "slow_down", "spike", "stairs_up_drop", "replace", "truncate"]
+
+
+def gen_phase_spec(rng, profile=None):
+    """a live-set profile: list of phases {op, live, churn} (counts of items)"""
+    profile = profile or rng.choice(PHASE_PROFILES)
+    item = rng.choice(sorted(PHASE_ITEMS))
+    citem = rng.choice(sorted(PHASE_ITEMS))
+    big = rng.randint(120000, 200000) // PHASE_BYTES[item]     # live bytes well above the 64 KiB budget
+    if profile == "updown":
+        lives = [big, 0]
+    elif profile == "sawtooth":
+        lives = [big // 2, 0, big, rng.choice([0, 40])]
+    elif profile == "stairs_down":
+        lives = [big, big // 3, big // 10, 0]
+    elif profile == "slow_down":
+        lives = [big, big * 2 // 3, big * 4 // 9, 0]
+    elif profile == "spike":
+        lives = [rng.choice([0, 100]), big, rng.choice([0, 60])]
+    elif profile == "stairs_up_drop":
+        lives = [big // 4, big // 2, big, 0]
+    else:
+        lives = [big, rng.choice([0, 30, big // 5])]
+    op = {"replace": "replace", "truncate": "truncate"}.get(profile, "set")
+    phases = []
+    peak = 0
+    for k, lv in enumerate(lives):
+        peak = max(peak, lv * PHASE_BYTES[item])
+        # garbage after the move: enough to reach the largest threshold any earlier phase could have left behind (2 x peak)
+        # and then to refill the initial budget, in items of the churn kind
+        churn = int((rng.uniform(1.15, 1.5) * peak + 110000) / PHASE_BYTES[citem])
+        phases.append({"op": op if k else "set", "live": lv, "churn": churn})
+    return {"profile": profile, "item": item, "citem": citem, "phases": phases, "wrap": rng.choice(["top", "top", "fn", "fiber"]),
+            "probe": rng.choice([0, 1])}
+
+
+def render_phases(ps):
+    src = [PRELUDE, "var pv = [];", "var keep = [];",
+           "fn fill(n) { var b = []; var j = 0; while j < n { b.push(%s); j = j + 1; } return b; }" % PHASE_ITEMS[ps["item"]],
+           "fn churn(n) { var j = 0; while j < n { var t = %s; j = j + 1; } }" % PHASE_ITEMS[ps["citem"]]]
+    body = []
+    for ph in ps["phases"]:
+        if ph["op"] == "set":
+            body.append("keep = nil; keep = fill(%d);" % ph["live"])
+        elif ph["op"] == "replace":
+            body.append("keep = fill(%d);" % ph["live"])
+        else:
+            body.append("while keep.len() > %d { keep.pop(); }" % ph["live"])
+        if ps.get("probe"):
+            body.append("heap_probe();")
+        body.append("churn(%d);" % ph["churn"])
+        if ps.get("probe"):
+            body.append("heap_probe();")
+    if ps["wrap"] == "top":
+        src += body
+    elif ps["wrap"] == "fn":
+        src.append("fn phases() {\n  %s\n}\nphases();" % "\n  ".join(body))
+    else:
+        src.append("var pf = Fiber.new(|| {\n  %s\n  return 0;\n});\npf.call();" % "\n  ".join(body))
+    src.append("keep = nil; print(1);")
+    return "\n".join(src) + "\n"
+
+
+def check_phases(ctx, pspecs, tag):
+    """release build, whole log: M verdict (impl == Pacing.v), S verdict (pacing_bound with the stated constants), byte accounting
+    at the probes / after the final collection / on the empty heap.  Returns per-program info dicts."""
+    rel = ctx.harness("release")
+    c = consts()
+    recs = yvlib.run_harness(rel, ["c16 log=1,dropvm=1 " + hx(render_phases(ps)) for ps in pspecs], case_timeout_ms=60000, recycle=4)
+    for i, r in enumerate(recs):
+        if r.crashed and "timeout" in str(r.result):   # loaded machine: once more, alone
+            recs[i] = yvlib.run_harness(rel, ["c16 log=1,dropvm=1 " + hx(render_phases(pspecs[i]))], case_timeout_ms=120000, shards=1)[0]
+    infos, terms, term_ix = [], [], []
+    for ix, (ps, rec) in enumerate(zip(pspecs, recs)):
+        run = Run(rec)
+        info = {"pspec": ps, "problems": [], "records": 0, "collections": 0, "max": 0, "shrinks": 0}
+        infos.append(info)
+        if not run.ok:
+            info["problems"].append(("violation", "the live-set profile program did not run to completion (release build)", "%s %s" % (rec.result, rec.messages[:2])))
+            continue
+        if run.D != [0, 0, 0]:
+            info["problems"].append(("violation", "the heap is not empty / bytes_allocated is not zero after dropping the Vm and collecting (release build, live-set profile)",
+                                     "objects, bytes, rooted = %s" % run.D))
+        if run.S and run.T is not None and run.S[0] != run.T:
+            info["problems"].append(("violation", "bytes_allocated is not the sum of the sizes of the live boxes after the final collection: the heap is paced on a wrong size (release build, live-set profile)",
+                                     "bytes_allocated=%d, live sizes=%d" % (run.S[0], run.T)))
+        badp = [p for p in run.P if p[0] != p[4]]
+        if badp:
+            info["problems"].append(("violation", "bytes_allocated is not the sum of the sizes of the live boxes at a heap_probe() call (release build, live-set profile)",
+                                     "bytes, threshold, nobjects, collections, live sizes = %s" % badp[0]))
+        ip = indep_size_problem(run, "release build, live-set profile")
+        if ip:
+            info["problems"].append(ip)
+        rl = alloc_log(rec)
+        info["records"] = len(rl)
+        info["log"] = rl
+        # collections after which the survivors are less than half of the survivors of the collection before
+        surv = [r[4] - r[0] for r in rl if r[3]]
+        info["shrinks"] = sum(1 for a, b in zip(surv, surv[1:]) if 2 * b < a and a > STATED_INIT // 2)
+        if rl:
+            term_ix.append(ix)
+            terms.append(pacing_term(rl, c))
+    vals = eval_logs(terms, 1, "C16ph" + tag)
+    for ix, val in zip(term_ix, vals):
+        info = infos[ix]
+        rl = info.pop("log")
+        if val is None or val == "BADLOG":
+            info["problems"].append(("corr", "the allocation log of a live-set profile could not be replayed (coq_eval failed or malformed log)", str(val)))
+            continue
+        m, s, st = val.split("|")
+        info["verdict"] = val
+        mm = re.match(r"n=(\d+) col=(\d+) freed=(\d+) max=(\d+)", st)
+        info["collections"], info["max"] = int(mm.group(2)), int(mm.group(4))
+        if s != "S:OK":
+            at = int(s.split("@")[1])
+            last = 0
+            for r in rl[:at + 1]:
+                if r[3]:
+                    last = r[4] - r[0]
+            worst = max(rl[at:], key=lambda r: r[4])
+            info["problems"].append(("violation", "live-set profile: the heap exceeds max(64 KiB, 2 x size after the previous collection) by more than the allocation in flight (release build, profile %s)" % info["pspec"]["profile"],
+                                     "log record %d: size bytes_before threshold_before collected bytes_after threshold_after = %s; size after the previous collection = %d, bound = %d; largest heap later in the log = %d bytes" % (
+                                         at, rl[at], last, max(STATED_INIT, STATED_GROWTH * last) + rl[at][0], worst[4])))
+        if m != "M:OK":
+            at, why = m.split("@")[1].split("#")
+            info["problems"].append(("corr", "allocation log of a live-set profile is not a run of Pacing.v: record %s, check %s (7 = threshold_after != GROWTH * survivors)" % (at, why),
+                                     "records %s" % rl[max(0, int(at) - 1):int(at) + 1]))
+    for info in infos:
+        info.pop("log", None)
+    return infos
+
+
+def report_phases(ctx, infos):
+    for info in infos:
+        for level, what, detail in info["problems"]:
+            if level == "violation":
+                if len(ctx.violations) < 5:
+                    ctx.violation(what, input=render_phases(info["pspec"]), expected="(see what)", actual=detail, pspec=info["pspec"], kind="phase")
+            elif len(ctx.corr_broken) < 5:
+                ctx.corr_broken.append("%s | %s | profile %s" % (what, detail[:300], json.dumps(info["pspec"])))
+
+
+def shrink_phase(ctx):
+    """minimise the first live-set profile violation: fewer phases, top-level, no probes (at most 8 re-runs)"""
+    v = next((v for v in ctx.violations if v.get("kind") == "phase"), None)
+    if not v:
+        return
+    ps = v["pspec"]
+    head = v["what"].split("(")[0]
+    budget = 8
+    cands = [dict(ps, wrap="top", probe=0)]
+    for k in range(len(ps["phases"]) - 1):
+        cands.append(dict(ps, wrap="top", probe=0, phases=ps["phases"][k:k + 2]))
+    for cand in cands:
+        if budget <= 0 or cand == ps:
+            continue
+        budget -= 1
+        info = check_phases(ctx, [cand], "shrink")[0]
+        hit = [(w, d) for l, w, d in info["problems"] if l == "violation" and w.split("(")[0] == head]
+        if hit and len(cand["phases"]) <= len(v["pspec"]["phases"]):
+            v.update({"pspec": cand, "input": render_phases(cand), "what": hit[0][0], "actual": hit[0][1]})
+            if len(cand["phases"]) == 2:
+                break
+
+
+# ---------------------------------------------------------------------------------------------------------
 # retention chains: every traced field that must be cleared when its owner is done with it
 #
 # Each iteration builds a leftover G from the previous leftover (global `last`) through a temporary owner T
@@ -615,8 +831,102 @@ CHAINS["upv_next_three"] = ("fn mk(p) { var a = [p]; var ca = || a; var m = (p, 
                             "last = mk(last);")
 
 
+# ---- hand-outs (round 7) ----------------------------------------------------------------------------------------
+# The scenarios above let the temporary owner T (the worker fiber) FINISH - its stack is truncated then - or keep T itself
+# as the leftover.  Never built before: T hands a product G out and is then abandoned in some OTHER state (suspended at a
+# yield - at the top of its entry function, inside a call, inside try/finally, inside a for loop -, resumed and suspended
+# again, ended by an uncaught throw), with the previous leftover still on its stack (argument, local, captured by a
+# still-open closure, instance field).  While T is garbage that is fine; any traced edge from G back to T (a closed upvalue
+# that still names its owner fiber, a helper fiber that still names its caller, an iterator or bound method naming the
+# frame ...) makes G_n -> T_n -> G_{n-1} -> ... grow although one G is reachable.
+# Product makers: every variable a product captures is CLOSED before T stops (an open captured variable legitimately
+# keeps the fiber whose stack holds it).
+HANDOUT_MAKE = {
+    "block": "var c = nil; { var x = i; c = || x; }",
+    "block_two": "var c = nil; { var x = i; var y = [i]; c = || (x, y); }",
+    "block_shared": "var c = nil; { var x = i; var c1 = || x; var c2 = || { x = x + 1; return x; }; c2(); c = (c1, c2); }",
+    "block_nested": "var c = nil; { var x = i; var inner = || x; c = || inner; }",
+    "block_in_block": "var c = nil; { var x = i; { var y = (x, 1); c = || (x, y); } }",
+    "fn_return": "var c = mk_counter(i); c();",
+    "fn_finally": "var c = fin_closure(i);",
+    "fn_deep": "var c = deep_closure(i, 3);",
+    "loop_var": "var c = nil; for x in [i, i] { c = || x; }",
+    "while_break": "var c = nil; while true { var x = i; c = || x; break; }",
+    "loop_continue": "var c = nil; var k = 0; while k < 2 { k = k + 1; var x = (i, k); c = || x; continue; }",
+    "caught": "var c = nil; try { var x = i; c = || x; throw 1; } catch e { }",
+    "caught_deep": "var c = nil; try { throw_closure(i); } catch e { c = e; }",
+    "method_closure": "var c = Maker.new().make(i);",
+    "in_instance": "var c = A.new(); { var x = i; c.x = || x; }",
+    "in_map": "var c = {}; { var x = i; c.insert(1, || x); }",
+    "helper_done": "var c = Fiber.new(|| 1); c.call();",
+    "helper_yielded": "var c = Fiber.new(|| { Fiber.yield(1); return 2; }); c.call();",
+    "helper_made": "var h = Fiber.new(|| { var x = i; return || x; }); var c = h.call();",
+    "helper_made_yield": "var h = Fiber.new(|q| { var c2 = nil; { var x = i; c2 = || x; } Fiber.yield(c2); return q; }); var c = h.call(p);",
+    "bound": "var o = A.new(); o.x = i; var c = o.get;",
+    "bound_native": "var c = [i].push;",
+    "iterator": "var c = [i, i].iter();",
+    "plain": "var c = [i];",
+}
+# where the previous leftover (argument p of T) sits while T is abandoned
+HANDOUT_HOLD = {
+    "arg": "",
+    "local": "var a = [p];",
+    "open_capture": "var a = [p]; var ka = || a; ka();",
+    "field": "var ho = A.new(); ho.x = p;",
+}
+# how T stops (statement after the maker, driver run by the main program)
+HANDOUT_END = {
+    "return": ("return c;", "last = worker.call(last);"),
+    "yield_abandon": ("Fiber.yield(c); return p;", "last = worker.call(last);"),
+    "yield_resume": ("Fiber.yield(c); return p;", "last = worker.call(last); worker.call();"),
+    "yield_twice_abandon": ("Fiber.yield(c); Fiber.yield(0); return p;", "last = worker.call(last); worker.call();"),
+    "yield_in_call": ("yield_deep(c); return p;", "last = worker.call(last);"),
+    "yield_in_try": ("try { Fiber.yield(c); } finally { cleanups = cleanups + 1; } return p;", "last = worker.call(last);"),
+    "yield_in_loop": ("for q in [1, 2] { Fiber.yield(c); } return p;", "last = worker.call(last);"),
+    "yield_in_block": ("{ var z = [c]; Fiber.yield(c); } return p;", "last = worker.call(last);"),
+    "yield_in_catch": ("try { throw c; } catch e { Fiber.yield(e); } return p;", "last = worker.call(last);"),
+    "yield_in_catch_deep": ("try { thrower_of(c); } catch e { Fiber.yield(e); } return p;", "last = worker.call(last);"),
+}
+HANDOUT_PRE = """fn mk_counter(n) { var k = n; return || { k = k + 1; return k; }; }
+fn fin_closure(n) { try { var x = n; return || x; } finally { cleanups = cleanups + 1; } }
+fn deep_closure(n, d) { if d == 0 { var x = n; return || x; } var pad = [d]; return deep_closure(n, d - 1); }
+fn throw_closure(n) { var x = n; var c = || x; throw c; }
+fn thrower_of(c) { var l = [c]; throw c; }
+fn yield_deep(c) { var l = [c]; Fiber.yield(c); return 0; }
+#[constructor(new)] class Maker { fn make(self, n) { var x = n; return || x; } }
+"""
+
+
+def handout_body(make, hold, end, nest=0):
+    stop, drive = HANDOUT_END[end]
+    body = "var worker = Fiber.new(|p| { %s %s %s });" % (HANDOUT_HOLD[hold], HANDOUT_MAKE[make], stop)
+    if not nest:
+        return body + " " + drive
+    # the same inside an outer fiber that finishes: the product travels out through one more transfer
+    inner = drive.replace("last = worker.call(last);", "res = worker.call(pp);")
+    return "var outer = Fiber.new(|pp| { var res = nil; %s %s return res; }); last = outer.call(last);" % (body, inner)
+
+
+def handout_fixed():
+    """every maker with the abandoned-suspended ending, every ending and every holder with the block-closure maker, nested forms"""
+    out = {}
+    for m in sorted(HANDOUT_MAKE):
+        out["handout_%s_yield_abandon_arg" % m] = handout_body(m, "arg", "yield_abandon")
+    for e in sorted(HANDOUT_END):
+        for h in sorted(HANDOUT_HOLD):
+            out["handout_block_%s_%s" % (e, h)] = handout_body("block", h, e)
+    for m in ("block", "helper_yielded", "fn_return"):
+        for e in ("yield_abandon", "yield_in_catch", "return"):
+            out["handout_nested_%s_%s" % (m, e)] = handout_body(m, "local", e, nest=1)
+    return out
+
+
+def gen_handout(rng):
+    return handout_body(rng.choice(sorted(HANDOUT_MAKE)), rng.choice(sorted(HANDOUT_HOLD)), rng.choice(sorted(HANDOUT_END)), nest=rng.choice([0, 0, 1]))
+
+
 def chain_program(body, n):
-    return CHAIN_PRE + "var i = 0;\nwhile i < %d {\n    %s\n    i = i + 1;\n}\nprint(i);\n" % (n, body)
+    return CHAIN_PRE + HANDOUT_PRE + "var i = 0;\nwhile i < %d {\n    %s\n    i = i + 1;\n}\nprint(i);\n" % (n, body)
 
 
 def chain_unrolled(kind, n):
@@ -646,12 +956,19 @@ def check_chains(ctx, quick, extra, only=None):
     else:
         for nm in sorted(CHAINS):
             cases.append((nm, None, (lambda n, b=CHAINS[nm]: chain_program(b, n))))
+        for nm, body in sorted(handout_fixed().items()):
+            cases.append((nm, None, (lambda n, b=body: chain_program(b, n))))
         for kind in ("broken", "missing"):
             cases.append(("unrolled_import_" + kind, None, (lambda n, k=kind: chain_unrolled(k, n))))
         for j, body in enumerate(extra):
             cases.append(("random_%d" % j, None, (lambda n, b=body: chain_program(b, n))))
     nruns = 0
+    all_cases = cases
+    # quick tier: the debug build (same collector, collects at every allocation, slow) runs half of the fixed hand-out grid, drawn per seed
+    hand = [c[0] for c in all_cases if c[0].startswith("handout_")]
+    skip_dbg = set(ctx.rng.sample(hand, len(hand) // 2)) if (quick and not only and hand) else set()
     for build, binary, (a, b) in (("release", ctx.harness("release"), (60, 120)), ("debug", ctx.harness("debug"), (12, 24))):
+        cases = [c for c in all_cases if not (build == "debug" and c[0] in skip_dbg)]
         lines = []
         for nm, cls, mk in cases:
             lines += ["c16 dropvm=1 " + hx(mk(a)), "c16 dropvm=1 " + hx(mk(b))]
@@ -680,7 +997,7 @@ def check_chains(ctx, quick, extra, only=None):
                 continue
             if len([v for v in ctx.violations if not v.get("known_class")]) < 5:
                 ctx.violation(what, input=mk(a), expected="equal counts by kind", actual=detail, **extra_kw)
-    return nruns, len(cases)
+    return nruns, len(all_cases)
 
 
 def run(ctx):
@@ -699,6 +1016,8 @@ def run(ctx):
             bound_method_cycle(ctx)
         elif v.get("kind") == "chain":
             check_chains(ctx, quick, [], only=v)
+        elif v.get("kind") == "phase":
+            report_phases(ctx, check_phases(ctx, [v["pspec"]], "replay"))
         ctx.cov.update({"evaluations": 1, "distinct_nontrivial": 0, "rule": "replay of one recorded case", "samples": [v.get("input", "")[:2000]]})
         return
     if (c.get("HEAP_GROWTH_FACTOR"), c.get("HEAP_INIT_BYTES_MAX")) != (STATED_GROWTH, STATED_INIT):
@@ -727,14 +1046,33 @@ def run(ctx):
     evict = check_range_cases(ctx, rcases, "cases")
     nrepl = check_repl(ctx)
     nrunlog = check_run_logs(ctx, specs[len(singles):len(singles) + (4 if quick else 16)], quick)
-    rchains = [gen_chain(rng) for _ in range(12 if quick else 80)]
+    import time
+    t0 = time.time()
+    rchains = [gen_chain(rng) for _ in range(12 if quick else 80)] + [gen_handout(rng) for _ in range(16 if quick else 120)]
     nchain_runs, nchains = check_chains(ctx, quick, rchains)
+    t1 = time.time()
+    # live-set profiles: 3 of the 8 profile shapes (quick) / each shape three times (thorough)
+    pspecs = [gen_phase_spec(rng, p) for p in (rng.sample(PHASE_PROFILES, 3) if quick else PHASE_PROFILES * 3)]
+    pinfos = check_phases(ctx, pspecs, "profiles")
+    report_phases(ctx, pinfos)
+    shrink_phase(ctx)
+    log("[C16] %d chain scenarios (%d runs): %.1fs; %d live-set profiles (%d log records): %.1fs" % (
+        nchains, nchain_runs, t1 - t0, len(pspecs), sum(i["records"] for i in pinfos), time.time() - t1))
+    flat = [i["pspec"]["profile"] for i in pinfos if not i["problems"] and i.get("verdict") and not i["shrinks"]]
+    if flat:
+        ctx.notes.append("live-set profiles without a collection whose survivors fell below half of the previous survivors (object sizes changed? "
+                         "re-measure PHASE_BYTES): %s" % flat)
     nontriv = {render(r["spec"], 0) for r in results if r["nontrivial"]}
     trivial = sum(1 for r in results if r.get("trivial"))
     from collections import Counter
     fr = Counter(f for r in results for f in r["spec"]["frags"])
     ctx.cov.update({
-        "evaluations": 4 * len(specs) + len(rcases) + 1 + nrepl + nrunlog + nchain_runs,
+        "evaluations": 4 * len(specs) + len(rcases) + 1 + nrepl + nrunlog + nchain_runs + len(pspecs),
+        "profile_programs": len(pspecs), "profile_shapes": dict(Counter(i["pspec"]["profile"] for i in pinfos)),
+        "profile_log_records_replayed": sum(i["records"] for i in pinfos), "profile_paced_collections": sum(i["collections"] for i in pinfos),
+        "profile_collections_after_live_set_halved": sum(i["shrinks"] for i in pinfos), "profile_max_heap_bytes": max([i["max"] for i in pinfos] + [0]),
+        "handout_scenarios_fixed": len(handout_fixed()),
+        "live_boxes_of_a_kind_unknown_to_the_harness_size_table_max": UNKNOWN_KIND_BOXES[0],
         "chain_scenarios": nchains, "chain_runs": nchain_runs,
         "repl_histories": nrepl, "run_log_replays": nrunlog,
         "distinct_nontrivial": len(nontriv),
@@ -745,7 +1083,8 @@ def run(ctx):
                 "that freed > 0 bytes (measured from the log replayed in Coq)" % len(FRAGS),
         "traces_validated_against_impl": sum(1 for r in results if r.get("verdict")),
         "samples": [render(specs[len(singles)], sizes(quick)["rel"][0]), {"range_requests": rcases[0]},
-                    {"verdicts": [r.get("verdict") for r in results[:3]]}, {"chain_body": rchains[0]}, {"chain_body": CHAINS["caller_finished"]}],
+                    {"verdicts": [r.get("verdict") for r in results[:3]]}, {"chain_body": rchains[0]}, {"chain_body": CHAINS["caller_finished"]},
+                    {"handout_body": rchains[-1]}, {"profile": pspecs[0], "verdict": pinfos[0].get("verdict")}],
         "programs": len(specs), "iterations": sizes(quick), "log_records_replayed": sum(r["records"] for r in results),
         "paced_collections_in_logs": sum(r["collections"] for r in results), "bytes_freed_in_logs": sum(r["freed"] for r in results),
         "programs_without_paced_collection_at_2N": trivial,
@@ -762,13 +1101,20 @@ def search(ctx):
     ctx.tier = "thorough"
     try:
         rng = ctx.rng
+        # directed first: live-set profiles (every shape twice): pacing rules that differ from 2 x survivors only when the
+        # survivors shrink, floors, ratchets; accounting drift shows at their probes and on the empty heap
+        pinfos = check_phases(ctx, [gen_phase_spec(rng, p) for p in PHASE_PROFILES * 2], "search")
+        report_phases(ctx, pinfos)
+        shrink_phase(ctx)
+        if len(ctx.violations) >= 3:
+            return
         specs = [dict(gen_spec(rng, False), ballast=rng.choice([1500, 4000])) for _ in range(32)]
         results = check_programs(ctx, specs, False, "search")
         report(ctx, results)
         if not ctx.violations:
             check_range_cases(ctx, [gen_range_case(rng) for _ in range(100)], "search")
         if not ctx.violations:
-            check_chains(ctx, False, [gen_chain(rng) for _ in range(80)])
+            check_chains(ctx, False, [gen_chain(rng) for _ in range(80)] + [gen_handout(rng) for _ in range(120)])
         shrink_first(ctx, False)
     finally:
         ctx.tier = old
